@@ -129,3 +129,34 @@ Theorem C09_7z_paths_from_safe_join :
     forall c o, In (c, o) pairs -> fs_touching c = true -> o = s "_safe_join".
 Proof. exact path_calls_spec. Qed.
 Print Assumptions C09_7z_paths_from_safe_join.
+
+(* ---- 7z FilesInfo: EmptyFile / Anti / Dummy / time stamps / unknown property records have no effect on
+   what _build_file_list receives, wherever they stand in the property sequence *)
+Theorem C09_ignored_props_inert :
+  forall n ps, parse_files_info n ps = parse_files_info n (filter (fun p => negb (is_ignored p)) ps).
+Proof. exact parse_files_info_ignored. Qed.
+Print Assumptions C09_ignored_props_inert.
+
+(* ---- entries WITHOUT a data stream (EmptyStream bit set: directories, zero-byte files, anti items) cause
+   no file-system event at all: the whole run equals the run on the header with those entries removed —
+   for every header, decoder, OS failure pattern, skip function and host *)
+Theorem C09_streamless_entries_inert :
+  forall cwd base dec okd okw skip max_mem host h,
+    run_7z cwd base dec okd okw skip max_mem host h
+    = run_7z cwd base dec okd okw skip max_mem host (drop_streamless h).
+Proof. exact run_7z_drop. Qed.
+Print Assumptions C09_streamless_entries_inert.
+
+(* hence: no write (or any other event) outside the private directory can come from them *)
+Theorem C09_streamless_no_write_outside :
+  forall cwd base dec okd okw skip max_mem host h e,
+    normal_base cwd base = true ->
+    In e (run_7z cwd base dec okd okw skip max_mem host h) ->
+    In e (run_7z cwd base dec okd okw skip max_mem host (drop_streamless h))
+    /\ (confined_b base (ev_path e) = true \/ e = Mkdirs (dirname base)).
+Proof.
+  intros cwd base dec okd okw skip max_mem host h e Hn H. split.
+  - rewrite <- run_7z_drop. exact H.
+  - exact (run_7z_events_ok _ _ _ _ _ _ _ _ _ _ Hn H).
+Qed.
+Print Assumptions C09_streamless_no_write_outside.
